@@ -128,7 +128,11 @@ func zz2Repeat(scenario func()) {
 	}
 	defer func() { zz2Tape.replay = false }() // also when an assertion fails in a repetition
 	n := verifrt.Param("STRESS", 200000)
-	deadline := time.Now().Add(time.Duration(verifrt.Param("STRESSMS", 1500)) * time.Millisecond)
+	ms := verifrt.Param("STRESSMS", 300)
+	if verifrt.Param("CONFIRM", 0) == 1 {
+		ms = verifrt.Param("CONFIRMMS", 20000) // the engine replays a counterexample: look harder
+	}
+	deadline := time.Now().Add(time.Duration(ms) * time.Millisecond)
 	for i := 1; i < n && time.Now().Before(deadline); i++ {
 		zz2Tape.replay, zz2Tape.pos = true, 0
 		scenario()
@@ -147,8 +151,8 @@ func zz2Repeat(scenario func()) {
 var zz2ConcOps = []int{zz2Has, zz2Get, zz2GetSize, zz2View, zz2Put, zz2Delete, zz2PutMany01, zz2PutMany10}
 
 var zz2QuickPairs = [][2]int{
-	{zz2Has, zz2Put}, {zz2Has, zz2Delete}, {zz2GetSize, zz2Delete}, {zz2Get, zz2Put},
-	{zz2Put, zz2Delete}, {zz2View, zz2Delete}, {zz2Delete, zz2PutMany01}, {zz2PutMany01, zz2PutMany10},
+	{zz2Has, zz2Delete}, {zz2Put, zz2Delete}, {zz2Has, zz2Put}, {zz2GetSize, zz2Delete},
+	{zz2Get, zz2Put}, {zz2View, zz2Delete}, {zz2Delete, zz2PutMany01}, {zz2PutMany01, zz2PutMany10},
 }
 
 func zz2Conc(layers int) {
@@ -156,7 +160,7 @@ func zz2Conc(layers int) {
 		var a, b int
 		if verifrt.Param("PAIRS", 0) == 1 {
 			// quick tier: the read/write and write/write pairs that exercise every lock mode combination
-			p := zz2QuickPairs[zz2Range("pair", 0, len(zz2QuickPairs)-1)]
+			p := zz2QuickPairs[zz2Range("pair", verifrt.Param("PAIRLO", 0), verifrt.Param("PAIRHI", len(zz2QuickPairs)-1))]
 			a, b = p[0], p[1]
 		} else {
 			ia := zz2Range("opA", 0, len(zz2ConcOps)-1)
